@@ -35,13 +35,14 @@ def rule_wrapperid(ctx):
                 bound[g.params[i]] = a
         for n, v in t.a[2]:
             bound[n] = v
-    own = all(p in bound and bound[p].op == "param" and bound[p].a[0] == p for p in f.params)
+    fparams = [p for p in f.params + f.kwonly]
+    own = all(p in bound and bound[p].op == "param" and bound[p].a[0] == p for p in fparams)
     marg = "marginal" in bound and tm.is_const(bound["marginal"], True)
-    nothing_else = set(bound) == set(f.params) | {"marginal"}
+    nothing_else = set(bound) == set(fparams) | {"marginal"}
     yield ob(R, f, "segment.vmeasure:is-nce-marginal", good and own and marg and nothing_else, "vmeasure(...) returns nce(<the same arguments by name>, marginal=True) and nothing else")
     n_sites = len([x for x in s.sites if x.kind in ("call", "div", "cmp", "mutate")])
     yield ob(R, f, "segment.vmeasure:no-extra-work", n_sites == 1, "vmeasure performs no other computation (%d sites)" % n_sites)
-    for p in f.params:
+    for p in fparams:
         if p in f.defaults or p in g.defaults:
             a, b = f.default_value(p), g.default_value(p)
             yield ob(R, f, "segment.vmeasure:default[%s]" % p, a == b and a[0], "default %s=%r equals nce's %r" % (p, a[1], b[1]))
